@@ -227,10 +227,10 @@ def arQuery (a : AR.Arena) : List String → Option String
   | ["is_rooted"] => some (encQR encBool (AR.isRooted a))
   | ["is_binary"] => some (encQR encBool (AR.isBinary a))
   | ["path", x] => x.toNat?.map fun x => encQR encNats (AR.pathFromRoot a x)
-  | ["lca", x, y] => do let x ← x.toNat?; let y ← y.toNat?; pure (encQR toString (AR.commonAncestor a x y))
+  | ["lca", x, y] => do let x ← x.toNat?; let y ← y.toNat?; pure (encQR toString (AR.commonAncestorPub a x y))
   | ["dist", x, y] => do
     let x ← x.toNat?; let y ← y.toNat?
-    pure (encQR (fun (d : Option Int × Nat) => s!"{encOptInt d.1} {d.2}") (AR.distance a x y))
+    pure (encQR (fun (d : Option Int × Nat) => s!"{encOptInt d.1} {d.2}") (AR.distancePub a x y))
   | ["height", u] => u.toInt?.map fun u => encQR toString (AR.treeHeight a u)
   | ["diameter", u] => u.toInt?.map fun u => encQR toString (AR.diameter a u)
   | ["length"] => some (encQR toString (AR.totalLength a))
